@@ -1,4 +1,5 @@
-(* C08, forward simulation for HEAP statements, part 3: Substitute with objects and closures that own heap
+(* CHAIN VERSION of Proof/RVHSimSubst.v (mechanical port: the relation is Proof/RVKSimRel.hrel, `HRep.xrep`).
+   C08, forward simulation for HEAP statements, part 3: Substitute with objects and closures that own heap
    blocks.  The reference-count code (Proof/RVHMem.v `rv_weakening_contraction_ok`) performs, in the
    abstraction `abs_heap`, exactly the operations `subst_ops` of the instrumented machine (Sem/AxHeap.v), in
    the same order (the order of the BTreeMap `transpose`); the parallel moves (Proof/RVSubst.v
